@@ -2,7 +2,7 @@
    Nothing but statements, closed by [exact], each followed by Print Assumptions. *)
 From Coq Require Import ZArith QArith List Bool.
 From RV Require Import Base.Wire Base.Text Lang.PyAst Lang.PySem Gen.SafeCasts Lang.ConstEval Lang.ConstEnv
-  Proofs.ConstEvalP Proofs.ConstEnvP Proofs.ConstEnvFreshP Proofs.ConstEnvSplitP.
+  Lang.ConstFlow Proofs.ConstEvalP Proofs.ConstEnvP Proofs.ConstEnvFreshP Proofs.ConstEnvSplitP Proofs.ConstFlowP.
 Import ListNotations.
 Open Scope Z_scope.
 
@@ -189,3 +189,62 @@ Example C03_global_split_nonvacuous :
   | None => False end.
 Proof. exact split_nonvacuous. Qed.
 Print Assumptions C03_global_split_nonvacuous.
+
+(* ---- the flow guard (Lang/ConstFlow.v): writes to names with a known transpile-time value inside if / elif / else
+   branches and loop bodies are allowed; what is required is that every fold site (len(name), flash_pattern(name),
+   glyph rows, and the right-hand sides that feed them) bakes in exactly what a flow-sensitive environment justifies:
+   each branch of an if starts from the bindings before the if (never from what an EARLIER SIBLING branch assigned or
+   appended), names written in a branch or loop body are unknown afterwards and inside the loop.  Inside that guard
+   the residual program produces on EVERY control-flow path the observations of the source program *)
+Theorem C03_flow_partial : forall p orc out,
+  flow_ok p = true -> python_outputs p orc = Some out -> firmware_outputs p orc = Some out.
+Proof. exact flow_sound. Qed.
+Print Assumptions C03_flow_partial.
+
+(* satisfiable by an if / elif / else chain whose first branch re-assigns a string and a list that the later branches
+   fold - a program outside is_fresh; all three paths *)
+Example C03_flow_nonvacuous :
+  flow_ok w_chain = true /\ is_fresh w_chain = false /\
+  python_outputs w_chain [1%nat] = Some [VList [VInt 1; VInt 1; VInt 128; VInt 0]; VInt 10; VStr [111;118;101;114;104;101;97;116;101;100]] /\
+  python_outputs w_chain [0%nat; 1%nat] = Some [VList [VInt 1; VInt 0; VInt 1; VInt 0]; VInt 7; VStr [119;97;114;109;105;110;103]] /\
+  python_outputs w_chain [0%nat; 0%nat] = Some [VList [VInt 1; VInt 0; VInt 1; VInt 0]; VInt 4; VStr [105;100;108;101]].
+Proof. exact chain_nonvacuous. Qed.
+Print Assumptions C03_flow_nonvacuous.
+
+(* the store is NOT copied per branch: a list appended in the first branch is seen by the sibling branch
+   (the sibling form of finding F-C03-shared-list-append) - outside the flow guard *)
+Theorem C03_sibling_list_refuted :
+  firmware_outputs w_sibling_list [0%nat] = Some [VList [VInt 1; VInt 0; VInt 1]] /\
+  python_outputs w_sibling_list [0%nat] = Some [VList [VInt 1; VInt 0]] /\ flow_ok w_sibling_list = false.
+Proof. exact sibling_list_refuted. Qed.
+Print Assumptions C03_sibling_list_refuted.
+
+(* ---- function definitions: the body is parsed once, at the def, with every formal argument bound to a run-time
+   marker - whatever module-level constant has the same name - and runs at the call.  Inside the guard def_ok (flow
+   guard of the module statements; the body is justified by the bindings known at the def that no module statement
+   between the def and the call writes; no formal argument named like a builtin the evaluator interprets) the call
+   produces, FOR EVERY ARGUMENT VALUE and on every path, the observations Python produces *)
+Theorem C03_def_partial : forall prefix ps body mid vals orc outs,
+  def_ok prefix ps body mid = true ->
+  python_call_outputs prefix ps body mid vals orc = Some outs ->
+  firmware_call_outputs prefix ps body mid vals orc = Some outs.
+Proof. exact def_sound. Qed.
+Print Assumptions C03_def_partial.
+
+Example C03_def_nonvacuous :
+  def_ok w_def_prefix [n_msg] w_def_body [SAssign n_v (EInt 1)] = true /\
+  python_call_outputs w_def_prefix [n_msg] w_def_body [SAssign n_v (EInt 1)] [VStr [97;98;99;100;101;102;103]] [] =
+    Some ([], [VInt 7; VInt 2; VInt 1]) /\
+  python_call_outputs w_def_prefix [n_msg] w_def_body [SAssign n_v (EInt 1)] [VList [VInt 1]] [] = Some ([], [VInt 1; VInt 2; VInt 1]).
+Proof. exact def_nonvacuous. Qed.
+Print Assumptions C03_def_nonvacuous.
+
+(* a module constant folded into a function body at the def is stale when the module re-assigns it before the call:
+   s = 'ab'; def f(q): mon.write(len(s)); s = 'abcdef'; f(0)  prints 2, Python prints 6 *)
+Theorem C03_def_time_global_refuted :
+  firmware_call_outputs w_def_prefix [n_q] [SObs (OLen n_s)] [SAssign n_s (EStr [97;98;99;100;101;102])] [VInt 0] [] = Some ([], [VInt 2]) /\
+  python_call_outputs w_def_prefix [n_q] [SObs (OLen n_s)] [SAssign n_s (EStr [97;98;99;100;101;102])] [VInt 0] [] = Some ([], [VInt 6]) /\
+  def_ok w_def_prefix [n_q] [SObs (OLen n_s)] [SAssign n_s (EStr [97;98;99;100;101;102])] = false /\
+  def_ok w_def_prefix [n_q] [SObs (OLen n_s)] [] = true.
+Proof. exact def_time_global_refuted. Qed.
+Print Assumptions C03_def_time_global_refuted.
